@@ -1,6 +1,7 @@
 package world
 
 import (
+	"net/url"
 	"encoding/base64"
 	"fmt"
 	"strings"
@@ -48,6 +49,18 @@ func genC03(r *Rng) *Plan {
 		opts["skip_auth_preflight"] = true
 	}
 	cfg.Routes = []Route{routeFor(1, opts)}
+	if r.Chance(1, 2) {
+		// a deployment has several upstreams, each with its own skip list (or none): what one upstream lets
+		// through unauthenticated says nothing about another
+		o2 := map[string]any{}
+		if r.Chance(1, 2) {
+			o2["skip_auth_regex"] = []string{r.Pick("^/other/", "^/private$", "^/api")}
+		}
+		if groupsOn {
+			o2["allowed_groups"] = []string{"eng", "all", "ops"}
+		}
+		cfg.Routes = append(cfg.Routes, routeFor(2, o2))
+	}
 	p := &Plan{Cfg: cfg, Users: stdUsers, Gen: "spoof"}
 	host := cfg.Routes[0].From
 	p.Steps = append(p.Steps, Step{Op: "login", B: "b1", User: "alice@example.com", Host: host, Target: "/"})
@@ -176,7 +189,7 @@ func genC06(r *Rng) *Plan {
 		p.Steps = append(p.Steps, Step{Op: "flow_start", B: bB, Name: "B", User: userB, Host: hostB, Target: tgtB})
 	}
 	variants := []string{"honest", "honest", "replay", "crossed", "crossed-state", "other-code", "state-equals-cookie", "cookie-as-state", "no-state", "no-cookie", "no-code",
-		"error-param", "foreign-state", "forged-state", "corrupt-state", "corrupt-cookie", "corrupt-code", "session-as-code", "junk-state"}
+		"error-param", "foreign-state", "forged-state", "corrupt-state", "corrupt-cookie", "corrupt-code", "session-as-code", "junk-state", "body-vs-query", "body-vs-query"}
 	if len(p.Steps) == 2 && bB == "b2" && r.Chance(1, 2) {
 		// two callbacks in flight at once (the first one's redemption is still outstanding when the second
 		// arrives): each is judged on its own code, state and cookie
@@ -210,6 +223,9 @@ func genC06(r *Rng) *Plan {
 			st.Arg = r.Intn(5000)
 		case "junk-state":
 			st.Str = r.Pick("", "AAAA", "%%%", strings.Repeat("A", 300))
+		case "body-vs-query":
+			st.Str = r.Pick("decoy", "", "AAAA")
+			st.Arg = r.Intn(4)
 		}
 		if r.Chance(1, 6) {
 			st.Dt = cfg.TokenTTL + 5*time.Second // the code's session expires first
@@ -344,6 +360,25 @@ func genC13(r *Rng) *Plan {
 		cfg.Routes = append(cfg.Routes, Route{Service: "dyn2", Type: "rewrite", From: `^foo\.(.*)\.sso\.sim$`, To: "foo-$1.back2.sim",
 			Backend: []string{"foo-dyn.back2.sim", "foo-x.back2.sim"}, Options: map[string]any{"allowed_email_domains": []string{"other.org"}}})
 	}
+	if rw >= 2 && r.Chance(1, 3) {
+		// a large deployment: the rewrite routes come first in the document and many simple routes follow; "the first
+		// rewrite route whose pattern matches, in the order the configuration resolves them" whatever the size
+		big := []Route{}
+		for _, rt := range cfg.Routes {
+			if rt.Type == "rewrite" {
+				big = append(big, rt)
+			}
+		}
+		for _, rt := range cfg.Routes {
+			if rt.Type != "rewrite" {
+				big = append(big, rt)
+			}
+		}
+		for i, n := nSimple+1, r.Range(11, 30); i <= n; i++ {
+			big = append(big, routeFor(i, map[string]any{"allowed_email_domains": []string{"example.com"}}))
+		}
+		cfg.Routes = big
+	}
 	if r.Chance(1, 3) {
 		// an exact route that a rewrite pattern also matches: exact match takes precedence
 		cfg.Routes = append(cfg.Routes, Route{Service: "exact", From: "foo.dyn.sso.sim", To: "exact.backend.sim", Backend: []string{"exact.backend.sim"},
@@ -353,8 +388,9 @@ func genC13(r *Rng) *Plan {
 	if twinGroups {
 		// two upstreams with different group rules; one user holds a session on each
 		cfg.CookieDomain = ""
-		cfg.Routes[0].Options = map[string]any{"allowed_groups": []string{"eng"}}
-		cfg.Routes[1].Options = map[string]any{"allowed_groups": []string{"all", "ops"}}
+		s0, s1 := simpleRoute(cfg.Routes, 0), simpleRoute(cfg.Routes, 1)
+		cfg.Routes[s0].Options = map[string]any{"allowed_groups": []string{"eng"}}
+		cfg.Routes[s1].Options = map[string]any{"allowed_groups": []string{"all", "ops"}}
 		cfg.DefaultDomains = nil
 	}
 	ported := r.Chance(1, 2)
@@ -374,7 +410,7 @@ func genC13(r *Rng) *Plan {
 		// … is then removed from one upstream's groups; both sessions come up for revalidation in overlapping
 		// requests: each is judged under its own upstream's rule
 		p.Gen += "+twin"
-		h1, h2 := cfg.Routes[0].From, cfg.Routes[1].From
+		h1, h2 := cfg.Routes[simpleRoute(cfg.Routes, 0)].From, cfg.Routes[simpleRoute(cfg.Routes, 1)].From
 		p.Steps = append(p.Steps, Step{Op: "login", B: "t1", User: "alice@example.com", Host: h1, Target: "/"})
 		p.Steps = append(p.Steps, Step{Op: "login", B: "t1", User: "alice@example.com", Host: h2, Target: "/"})
 		p.Steps = append(p.Steps, Step{Op: "idp", Sub: "setgroups", User: "alice@example.com", Groups: []string{"eng"}})
@@ -425,6 +461,19 @@ func genC13(r *Rng) *Plan {
 		}
 	}
 	return p
+}
+
+// simpleRoute returns the index of the k-th route that is not a rewrite route.
+func simpleRoute(rs []Route, k int) int {
+	for i, rt := range rs {
+		if rt.Type != "rewrite" {
+			if k == 0 {
+				return i
+			}
+			k--
+		}
+	}
+	return 0
 }
 
 // C18: every status the proxy can emit, hostile upstream headers, overrides, cookie settings, X-Forwarded-Proto values.
@@ -515,7 +564,7 @@ var hostileStrings = []string{`<script>alert(1)</script>`, `"><img src=x onerror
 func genC20(r *Rng) *Plan {
 	cfg := swarmConfig(r)
 	cfg.AuthLifetime = r.PickDur(2*time.Hour, 6*time.Hour) // shorter than the cookie's own expiry: a browser can still hold a session past its lifetime
-	cfg.Routes = []Route{routeFor(1, nil)}
+	cfg.Routes = []Route{routeFor(1, map[string]any{"skip_auth_regex": []string{"^/open/"}})}
 	cfg.AuthDomains = []string{"*"}
 	cfg.DefaultDomains = []string{"*"}
 	hostileEmail := hostileStrings[r.Intn(len(hostileStrings))]
@@ -550,7 +599,25 @@ func genC20(r *Rng) *Plan {
 			}
 			return st
 		}
-		switch r.Intn(10) {
+		switch r.Intn(11) {
+		case 10: // whatever the proxy itself answers when the backend cannot be reached (refused, reset, cut short), for a
+			// request whose path and forwarding headers carry the text
+			fk := r.Pick("refuse", "reset", "truncate")
+			pair(func(s string) Step {
+				return Step{Op: "net", Name: "proxy-up>" + cfg.Routes[0].Backend[0], Sub: fk, Arg: 1, Arg2: r.Pick0(0, 3, 20)}
+			}, h)
+			// (one fault per request: the pair above arms two, the requests below consume them in order)
+			pair(func(s string) Step {
+				st := extra(Step{Op: "get", B: "anon", Host: host, Target: "/open/" + pathEscape(s)})
+				st.Headers = append(st.Headers, [2]string{"X-Forwarded-Host", strings.Map(func(c rune) rune {
+					if c == '\n' || c == '\r' || c == 0 {
+						return -1
+					}
+					return c
+				}, s)})
+				return st
+			}, h)
+			p.Steps = append(p.Steps, Step{Op: "net", Sub: "clear"})
 		case 9: // sign-in page shown to a browser whose authenticator session has run out its lifetime (or was never there),
 			// for a signed redirect whose *host* carries the text (a label under the root domain)
 			label := strings.Map(func(c rune) rune {
@@ -722,3 +789,5 @@ func genC02(r *Rng) *Plan {
 	}
 	return p
 }
+
+func pathEscape(s string) string { return url.PathEscape(s) }
